@@ -27,7 +27,7 @@ def axis_variants(rng, S, n):
     """(axis or None, ok?) variants for a data axis of length n"""
     cv = (lambda v: Fr(v)) if S == "Q" else float
     base = [cv(3 * i + (i * i) % 3) for i in range(max(n, 1) + 2)]
-    out = [(None, n >= 2)]
+    out = [(None, n >= 2), ([], False)]      # incl. an explicitly supplied axis without any element (seed C10-r9m1: cached end points read x[0])
     for m in (n - 1, n, n + 1):
         if m < 0:
             continue
